@@ -421,6 +421,13 @@ def expression_tie(run, rnd, quick, batch=0):
     return None, []
 
 
+def variables_tie(run, rnd, quick, batch=0):
+    """coq/Vars: the model of variables.py against the real pass (structural) and the core-language semantics
+    against CPython; see props/c01_vars.py"""
+    from props import c01_vars
+    return c01_vars.tie(run, rnd, quick, PRELUDE, convert, batch)
+
+
 def functionalise_tie(run, rnd, quick, batch=0):
     """Translation validation for coq/Fn: every generated program is converted with the real pipeline; the annotated tree
     control_flow.transform saw (reads / writes, LIVE_VARS_IN of the real analyses) and the locals of every generated body
@@ -644,7 +651,7 @@ def check(run):
         tie_msg = str(e)
         run.note(tie_msg)
     if tie_ok:
-        vlib.standard_proof_step(run, ['Lower/PassesCheck.vo', 'Lower/Compose.vo', 'Lower/Source.vo', 'Fn/FnProofs.vo', 'Fn/FnCheck.vo', 'Expr/ExprProofs.vo', 'Expr/ExprCheck.vo', 'Generated/C01_ops_gen.vo'])
+        vlib.standard_proof_step(run, ['Lower/PassesCheck.vo', 'Lower/Compose.vo', 'Lower/Source.vo', 'Fn/FnProofs.vo', 'Fn/FnCheck.vo', 'Expr/ExprProofs.vo', 'Expr/ExprCheck.vo', 'Generated/C01_ops_gen.vo', 'Vars/VarProofs.vo', 'Vars/VarCheck.vo'])
     rnd = random.Random(run.seed * 104729 + 1)
     lower_bad, lower_programs = None, []
     nprog = 120 if quick else 1500
@@ -697,7 +704,7 @@ def check(run):
         if tie_ok:
             # the thorough tier repeats the ties in batches of the quick size (one Coq file each)
             for batch in range(1 if quick else 6):
-                for tie in (lowering_tie, functionalise_tie, expression_tie):
+                for tie in (lowering_tie, functionalise_tie, expression_tie, variables_tie):
                     if not lower_bad:
                         lower_bad, lower_programs = tie(run, rnd, quick, batch)
         mod = convrun.load_module(allsrc, PRELUDE)
